@@ -529,6 +529,27 @@ def gen_c17(tier, rng):
             t = run_case(case)
             runs.append({"fe": fe, "obs": obs_of(t)})
         rel.append({"id": "r%d" % k, "mode": "interchange", "kind": kind, "runs": runs, "reqs": [[u, t, list(p)] for u, t, p in reqs]})
+    # directed: a request for a unit that is not hosted, followed in the same read by requests for hosted units (the later ones must be
+    # served on every front-end whether the first is ignored or refused), with unit 0 hosted so that the framer lets every id through
+    for j, kind in enumerate(["tcp", "rtu", "ascii"] * (2 if tier == "quick" else 10)):
+        for ign in (0, 1):
+            cfg = {"single": 0, "hosted": [0, 1], "broadcast": 0, "ignore": ign}
+            units = make_units(cfg)
+            reqs = [(rng.choice([9, 4, 77]), rng.randint(1, 65535), dm.pdu_read(3, 0, 2)),
+                    (1, rng.randint(1, 65535), dm.pdu_w1(6, 2, rng.randint(1, 65535))),
+                    (rng.choice([9, 200]), rng.randint(1, 65535), dm.pdu_w1(6, 3, 7)),
+                    (1, rng.randint(1, 65535), dm.pdu_read(3, 0, 4))]
+            frames = build_frames(kind, reqs)
+            fes = (D.STREAM_FES + D.DGRAM_FES) if kind == "tcp" else (D.STREAM_FES + ["syncSerial"])
+            runs, sched = [], None
+            for fe in fes:
+                case = Case("x", "strict", fe, kind, cfg, copy.deepcopy(units))
+                case.add_conn(frames)
+                if sched is None:
+                    sched = schedule_for(case, "syncUdp", rng, "whole" if j % 2 else "multi")
+                case.schedule = sched
+                runs.append({"fe": fe, "obs": obs_of(run_case(case))})
+            rel.append({"id": "m%d_%d" % (j, ign), "mode": "interchange", "kind": kind, "runs": runs, "reqs": [[u, t, list(p)] for u, t, p in reqs]})
     # isolation: 2-3 connections interleaved (random chunk boundaries) vs the same connection alone on the same store history
     m = 100 if tier == "quick" else 1500
     for k in range(m):
